@@ -38,9 +38,18 @@ Definition empty_code_hash (i : info) : bool := N.eqb (i_hash i) keccak_empty.
 (* AccountInfo::is_empty: code hash is KECCAK_EMPTY *or zero*, balance 0, nonce 0 *)
 Definition info_is_empty (i : info) : bool :=
   (empty_code_hash i || N.eqb (i_hash i) 0) && N.eqb (i_bal i) 0 && N.eqb (i_nonce i) 0.
-(* AccountInfo { code: None, ..info.clone() }   incarnation_db.rs:171 *)
+(* the account without its code field: the comparison key of the theorems ([norm], the invariants) *)
 Definition strip (i : info) : info :=
   {| i_bal := i_bal i; i_nonce := i_nonce i; i_hash := i_hash i; i_code := None |}.
+(* what publish_writes puts into a Basic entry:
+     AccountInfo { code: if has_code { None } else { info.code.clone() }, ..info.clone() }
+   incarnation_db.rs:171-178 - the code travels through the Code location and is stripped here, except
+   for a code-less account, which keeps its (empty or absent) code field exactly as finalised so that a
+   later transaction reads what revm's cache would return (repair of the BundleState::contracts
+   difference, see DESIGN.md findings) *)
+Definition publish_info (i : info) : info :=
+  {| i_bal := i_bal i; i_nonce := i_nonce i; i_hash := i_hash i;
+     i_code := if empty_code_hash i then i_code i else None |}.
 
 (* model.rs:56-72 *)
 Record abasic := mkAb { ab_bal : N; ab_nonce : N; ab_hash : option N }.
@@ -290,7 +299,7 @@ Definition basic_changed (snap : option abasic) (i : info) : bool :=
 Definition info_writes (bmatch : N -> bool) (snap : option abasic) (a : N) (i : info) : list (loc * mvalue) :=
   (if code_changed snap i then
      match i_code i with Some c => [(LCode a, VCode c)] | None => [] end else []) ++
-  (if negb (bmatch a) && basic_changed snap i then [(LBasic a, VBasic (Some (strip i)))] else []).
+  (if negb (bmatch a) && basic_changed snap i then [(LBasic a, VBasic (Some (publish_info i)))] else []).
 
 Definition slot_writes (a : N) (sl : list (N * N)) : list (loc * mvalue) :=
   map (fun x => (LStorage a (fst x), VStorage (snd x))) sl.
